@@ -460,6 +460,101 @@ func runC02(c *core.Ctx) {
 		}
 	}
 
+	// ---- kept objects (E2): one master key and one extended public key object used again and again ----
+	// all operation sequences of length <= 3 (thorough 4) on the SAME two objects; after every operation its result and both
+	// kept objects are compared with the reference (a derivation must not change the key it starts from)
+	{
+		depth := 3
+		if c.Thorough() {
+			depth = 4
+		}
+		var kseqs int64
+		for _, cv := range curves {
+			seed := []byte{0x5e, 0xed, byte(len(cv.name))}
+			rm := rs.Master(cv.ref, seed)
+			type kop struct {
+				name   string
+				public bool
+				idx    uint32
+				again  bool // call Public() on the kept public object first
+			}
+			ops := []kop{{"m.DeriveChild(0)", false, 0, false}, {"m.DeriveChild(1H)", false, 1<<31 + 1, false}, {"xpub.DeriveChild(0)", true, 0, false},
+				{"xpub.DeriveChild(1)", true, 1, false}, {"xpub.Public().DeriveChild(2)", true, 2, true}, {"xpub.DeriveChild(1H)", true, 1<<31 + 1, false}}
+			var rec func(seq []int)
+			rec = func(seq []int) {
+				if len(seq) > 0 {
+					kseqs++
+					m, err := slip10.NewMasterKey(seed, cv.impl)
+					if err != nil {
+						return
+					}
+					xpub := m.Public()
+					var names []string
+					for _, oi := range seq {
+						o := ops[oi]
+						names = append(names, o.name)
+						cas := map[string]interface{}{"curve": cv.name, "operations": names}
+						var ch *slip10.ExtendedKey
+						var cerr error
+						pn := core.Catch(func() {
+							switch {
+							case !o.public:
+								ch, cerr = m.DeriveChild(o.idx)
+							case o.again:
+								ch, cerr = xpub.Public().DeriveChild(o.idx)
+							default:
+								ch, cerr = xpub.DeriveChild(o.idx)
+							}
+						})
+						var rch rs.Node
+						var rerr error
+						if o.public {
+							rch, rerr = rm.Public().Child(cv.ref, o.idx)
+						} else {
+							rch, rerr = rm.Child(cv.ref, o.idx)
+						}
+						bad := ""
+						switch {
+						case pn != nil:
+							bad = fmt.Sprintf("%s panicked: %v", o.name, pn)
+						case (rerr != nil) != (cerr != nil):
+							bad = fmt.Sprintf("%s: error %v, SLIP-0010: %v", o.name, cerr, rerr)
+						case rerr == nil && o.public && (!bytes.Equal(ch.Key.Bytes(), rch.Pub) || !bytes.Equal(ch.ChainCode, rch.Chain) || !bytes.Equal(ch.Fingerprint(), rch.Fingerprint())):
+							bad = fmt.Sprintf("%s = key %x chain %x fingerprint %x, SLIP-0010: %x / %x / %x", o.name, ch.Key.Bytes(), ch.ChainCode, ch.Fingerprint(), rch.Pub, rch.Chain, rch.Fingerprint())
+						case rerr == nil && !o.public && (!bytes.Equal(ch.Key.Bytes(), rch.Priv) || !bytes.Equal(ch.ChainCode, rch.Chain) || !bytes.Equal(ch.Fingerprint(), rch.Fingerprint())):
+							bad = fmt.Sprintf("%s = key %x chain %x, SLIP-0010: %x / %x", o.name, ch.Key.Bytes(), ch.ChainCode, rch.Priv, rch.Chain)
+						}
+						if bad == "" {
+							if pn := core.Catch(func() {
+								if !bytes.Equal(m.Key.Bytes(), rm.Priv) || !bytes.Equal(m.ChainCode, rm.Chain) || !m.IsPrivate() {
+									bad = fmt.Sprintf("after %s the kept master key is key %x chain %x, it was %x / %x", o.name, m.Key.Bytes(), m.ChainCode, rm.Priv, rm.Chain)
+								} else if !bytes.Equal(xpub.Key.Bytes(), rm.Pub) || !bytes.Equal(xpub.ChainCode, rm.Chain) || !bytes.Equal(xpub.Fingerprint(), rm.Fingerprint()) || xpub.IsPrivate() {
+									bad = fmt.Sprintf("after %s the kept extended public key is key %x chain %x fingerprint %x, it was %x / %x / %x", o.name, xpub.Key.Bytes(), xpub.ChainCode, xpub.Fingerprint(), rm.Pub, rm.Chain, rm.Fingerprint())
+								}
+							}); pn != nil {
+								bad = fmt.Sprintf("after %s reading the kept keys panics: %v", o.name, pn)
+							}
+						}
+						if bad != "" {
+							c.Violate("C02/"+cv.name+"/kept-objects", fmt.Sprintf("operations %q on one master key m and one xpub = m.Public(): %s", names, bad), cas, "", nil)
+							break
+						}
+					}
+				}
+				if len(seq) == depth {
+					return
+				}
+				for o := range ops {
+					rec(append(append([]int{}, seq...), o))
+				}
+			}
+			rec(nil)
+		}
+		c.Eval(kseqs)
+		nontriv.Add(kseqs)
+		c.Set("kept_object_sequences", kseqs)
+	}
+
 	// ---- (b) scripted answers ----
 	seqs := c02seqs()
 	c.Set("scripted_sequences", int64(len(seqs)*3))
@@ -470,7 +565,10 @@ func runC02(c *core.Ctx) {
 			cas := map[string]interface{}{"mode": mode, "answers": c02seqName(seq)}
 			key := "C02/scripted/" + mode
 			last := seq[len(seq)-1]
-			seed := []byte("scripted-seed-bytes")
+			// the seed is a window of a larger caller buffer (spare capacity behind it, poisoned): neither may be written
+			seedBuf := bytes.Repeat([]byte{0xEE}, 256)
+			seed := seedBuf[8 : 8+copy(seedBuf[8:], "scripted-seed-bytes")]
+			seedWant := append([]byte{}, seedBuf...)
 			var parent *slip10.ExtendedKey
 			var parentScript *c02script
 			if mode != "master" {
@@ -511,6 +609,10 @@ func runC02(c *core.Ctx) {
 					c.Violate(key+"/panic", fmt.Sprint(p), cas, "", nil)
 				}
 				continue
+			}
+			if !bytes.Equal(seedBuf, seedWant) {
+				c.Violate(key+"/seed-buffer-written", fmt.Sprintf("answers [%s]: the caller's seed buffer (seed = 19-byte window with spare capacity) was written to: %x", c02seqName(seq), seedBuf[:96]), cas, "", nil)
+				copy(seedBuf, seedWant)
 			}
 			// expected chain of buffers
 			var want [][]byte
@@ -569,7 +671,14 @@ func runC02(c *core.Ctx) {
 	toyIdx := []uint32{0, 1, 1 << 31, 1<<31 + 1}
 	hist := make([]atomic.Int64, 16)
 	core.Par(256, func(s int) {
-		seed := []byte{byte(s), 0x77}
+		seedBuf := bytes.Repeat([]byte{0xEE}, 200)
+		seedBuf[0], seedBuf[1] = byte(s), 0x77
+		seed := seedBuf[:2]
+		defer func() {
+			if seedBuf[0] != byte(s) || seedBuf[1] != 0x77 || !bytes.Equal(seedBuf[2:], bytes.Repeat([]byte{0xEE}, 198)) {
+				c.Violate("C02/toy/seed-buffer-written", fmt.Sprintf("seed %02x77 (a window with spare capacity): the caller's buffer was written to: %x", s, seedBuf[:80]), s, "", nil)
+			}
+		}()
 		m, err := slip10.NewMasterKey(seed, toyCurve{})
 		rm := rs.Master(toyPlug{}, seed)
 		c.Eval(1)
